@@ -564,6 +564,7 @@ class Forcing(BaseForce):
         nc = Dataset(self.file_idx[time_step])
         nc.set_auto_maskandscale(False)
         self._nc = nc
+        self._open_file = self.file_idx[time_step]
 
         # Get scaling info per variable
         self.scaled = dict()
@@ -590,7 +591,7 @@ class Forcing(BaseForce):
         if self._first_read:
             self.open_forcing_file(time_step)  # Open first file
             self._first_read = False
-        elif self.frame_idx[time_step] == 0:  # Open next file
+        elif self.file_idx[time_step] != self._open_file:  # Open another file
             self._nc.close()
             self.open_forcing_file(time_step)
 
